@@ -14,5 +14,5 @@ for p in C04 C05 C06 C07 C02 C03 C08 C09 C10 C11 C12 C13 C14 C15 C17 C19 C01 C16
       *) RUNS="--runs $((200000*S/100))";;
     esac
   fi
-  VERIF_REPO=${VP_RUN_REPO:-/repo} ./check run $p --tier thorough $RUNS 2>&1 | grep -E "^VIOLATION|^KNOWN|class=|check: prop|MACHINERY|^  [A-Za-z]" | cut -c1-400 | head -30
+  VERIF_REPO=${VP_RUN_REPO:-/repo} ./check run $p --tier thorough $RUNS 2>&1 | grep -a -E "^VIOLATION|^KNOWN|class=|check: prop|MACHINERY|^  [A-Za-z]" | cut -c1-400 | head -30
 done
